@@ -31,6 +31,12 @@ def run(ctx):
         "tables with [p,p], [q,q], every mixed list of length three and two of length four, one-channel tables with lists longer than the table, websocket: a repeated list on one path and "
         "all / a proper list / another repeated list on the other, tcp/unix/ws/udp/stdio/dns sampled with tables of 2-5 channels (always a list of exactly the table's length that leaves a "
         "channel out); every name is configured, so start-up must succeed and exactly the names occurring in the list are exposed. "
+        "Channel names that themselves begin with '/' (space slash-led-names; the command-line syntax writes names that way; wire ids '//b', '///b'), and channels of ONE table whose names "
+        "differ only in the number of leading slashes (b, /b, //b; thorough also ///b; b over {a,ab,echo,a/b,A,''}): tcp with every ordered pair of two forms of a base and all forms in one "
+        "table under every allow-list in both orders (both exposed / only the plain one / only a slash-led one), a slash-led name whose plain form is not configured next to an unrelated "
+        "channel; websocket with the two paths exposing different forms / one path all; unix, tcp, udp, stdio, dns sampled with 2-3 forms of a base next to unrelated channels and the "
+        "deciding lists; bursts of simultaneous requests for the forms of one base on one session (tcp, unix, ws, stdio); requested names additionally include every configured slash-led "
+        "name without one / without all of its leading slashes. "
         "Concurrent family: on configurations with >= 2 exposed channels, bursts of 8 (udp 6, dns 3) simultaneous requests for DIFFERENT allowed names "
         "(every third burst mixed with refused names) on ONE session, through the real client (several listeners -> Upstreams.Connect at once) and through "
         "the raw client (several smux streams at once); per request: the banner it receives and eight bytes it pushes must belong to the target of ITS name "
